@@ -233,7 +233,7 @@ def gen_data(case):
     df = pd.DataFrame({'rid': base + np.arange(n, dtype=float), 'A': A, 'L1': L1, 'L2': L2, 'Y': Y}, index=idx)
     # index labels that are not unique / not integers (round 4): two extracts stacked with pd.concat (labels restart),
     # household / site identifiers used as the index (each label on two or three rows), string labels, one constant
-    # label.  The rows are all different; only their labels repeat.
+    # label, a named index, two-level (site, visit) labels, dates.  The rows are all different; only their labels repeat.
     kind = case['index']
     if kind == 'stacked':
         h = int(r.integers(1, n)) if n > 1 else 0
@@ -246,6 +246,13 @@ def gen_data(case):
         df.index = ['site%d' % (v % 3) for v in range(n)]
     elif kind == 'constant':
         df.index = np.zeros(n, dtype=int)
+    elif kind == 'named_household':     # a NAMED index (reset_index then adds a column of that name)
+        df.index = pd.Index(np.arange(n) // int(r.integers(2, 4)), name='household')
+    elif kind == 'multi':               # two-level labels (site, visit), each pair on several rows; named or not
+        names = ['site', 'visit'] if r.uniform() < 0.5 else None
+        df.index = pd.MultiIndex.from_arrays([np.arange(n) % 3, np.arange(n) // 3 % 4], names=names)
+    elif kind == 'datetime':            # visit dates, two rows a day
+        df.index = pd.to_datetime('2020-01-01') + pd.to_timedelta(np.arange(n) // 2, unit='D')
     # exact duplicates of records (round 4): overlapping extracts stacked with pd.concat ('stack': the copy keeps
     # the label of the original and comes at the end), a frequency table expanded row by row ('expand': the copies
     # follow the original), or the copies re-labelled by ignore_index=True ('relabel').  A duplicated record is the
@@ -438,7 +445,7 @@ def k_split_hypothesis(chk, case):
 
 def count_data_shape(chk, case, rows):
     chk.count('index_' + case['index'])
-    repeated = case['index'] in ('stacked', 'household', 'constant', 'string_repeated')
+    repeated = case['index'] in REPEATED_LABELS
     if case['n_missing'] and repeated:
         chk.count('missing_rows x repeated_index_labels')
     if len(set(rows)) != len(rows):
@@ -605,7 +612,9 @@ def make_history(rng, cls, tier):
     return case
 
 
-INDEX_KINDS = ['default', 'stacked', 'shuffled', 'household', 'offset', 'string', 'constant', 'string_repeated']
+INDEX_KINDS = ['default', 'stacked', 'shuffled', 'household', 'offset', 'string', 'constant', 'string_repeated',
+               'named_household', 'multi', 'datetime']
+REPEATED_LABELS = ('stacked', 'household', 'constant', 'string_repeated', 'named_household', 'multi', 'datetime')
 DUP_MODES = ['stack', 'expand', 'relabel']
 _ROT = itertools.count()
 
